@@ -20,6 +20,7 @@ Inductive op :=
 | OSeq (id : nat)            (* silent construction: tuple/list/set/dict display, slice, str join *)
 | OIn (neg : bool)           (* in / not in: __contains__ event, truth test of its result, C bool *)
 | OGetItem | OSetItem | ODelItem
+| OGetSlice                 (* a[lo:hi] (SliceIndexNode: not a subscript node); args a, lo, hi *)
 | OGetAttr (a : nat) | OSetAttr (a : nat) | ODelAttr (a : nat).
 
 Inductive val :=
@@ -682,6 +683,7 @@ Fixpoint vtruth (v : val) : bool :=
   | VLeaf kind _ => negb (Nat.eqb kind 1)
   | VItem i _ => negb (Nat.eqb i 1)
   | VOp (OSeq _) args => match args with [] => false | _ => true end
+  | VOp OGetSlice args => match args with a :: _ => vtruth a | [] => true end
   | VOp _ args => fold_right (fun a t => xorb (vtruth a) t) true args
   end.
 
